@@ -31,6 +31,8 @@ NEIGHBOURS = [{"from": "C04", "limit": 1500, "why": "inherited postconditions as
 
 
 def cases(tier, rng):
+    for c in directed.awaitable_kinds_cases():
+        yield "directed-awaitable-kinds", c
     thorough = tier == "thorough"
     for c in directed.falsy_and_truthy_values_cases():
         yield "directed-falsy-and-truthy-values", c
